@@ -60,6 +60,9 @@ static int run_case(const struct ecimpl *im, int len, int k, int rows, int soff,
 	uint8_t **srcv = g_alloc(k * sizeof(uint8_t *), G_END), **dstv = g_alloc(rows * sizeof(uint8_t *), G_END);
 	memcpy(srcv, src, k * sizeof(uint8_t *));
 	memcpy(dstv, dst, rows * sizeof(uint8_t *));
+	/* ... and are the caller's: "nothing outside the output blocks is written" includes them, also temporarily */
+	g_readonly(srcv, 1);
+	g_readonly(dstv, 1);
 	if (V_TRY()) {
 		switch (im->kind) {
 		case K_DP1: PCALL(im->fn, len, k, tbl, srcv, dst[0]); break;
@@ -125,6 +128,8 @@ static void run_big(const struct ecimpl *im, int len, int w, int start_aligned)
 	uint8_t **srcv = g_alloc(k * sizeof(uint8_t *), G_END), **dstv = g_alloc(rows * sizeof(uint8_t *), G_END);
 	memcpy(srcv, src, k * sizeof(uint8_t *));
 	memcpy(dstv, dst, rows * sizeof(uint8_t *));
+	g_readonly(srcv, 1);
+	g_readonly(dstv, 1);
 	v_pcall_mode = 1;
 	if (V_TRY()) {
 		switch (im->kind) {
